@@ -118,7 +118,8 @@ Answers(st, c) ==
   ELSE Normal(p)
 
 -----------------------------------------------------------------------------
-States == {"normal", "readonly", "ratelimited", "drain"}
+\* "faulty": the backend fails operations with arbitrary errnos; replies are built as in "normal" (failure results)
+States == {"normal", "readonly", "ratelimited", "drain", "faulty"}
 Calls == {[prog |-> NFS_PROG, vers |-> 3, proc |-> i, args |-> a] : i \in 0..23, a \in {"good", "trunc", "garbage", "badcred"}}
          \cup {[prog |-> MOUNT_PROG, vers |-> v, proc |-> i, args |-> a] : v \in {1, 3}, i \in 0..7, a \in {"good", "trunc", "garbage"}}
          \cup {[prog |-> pg, vers |-> v, proc |-> 1, args |-> "good"] : pg \in {NFS_PROG, MOUNT_PROG, 100000, 200000}, v \in {0, 2, 3, 4}}
